@@ -3,7 +3,7 @@
 backend that drains the body and reports how many bytes it got and how the stream ended."""
 def find(ctx, oblig, diag):
     res = None
-    for n, cs, v in (("100", "40", "cut-after-first-chunk"), ("100", "40", "no-final-chunk"), ("100", "40", "flip-data-byte"), ("100", "40", "upper-case-signature-char"), ("100", "40", "flip-signature-low-bit"), ("100", "40", "complete"), ("0", "40", "complete"), ("65", "64", "complete")):
+    for n, cs, v in (("100", "40", "cut-after-first-chunk"), ("100", "40", "no-final-chunk"), ("100", "40", "flip-data-byte"), ("8", "8", "declared-short"), ("100", "40", "declared-short"), ("100", "40", "upper-case-signature-char"), ("100", "40", "flip-signature-low-bit"), ("100", "40", "complete"), ("0", "40", "complete"), ("65", "64", "complete")):
         res = ctx["replay_tool"](["chunked", n, cs, v])
         if res.get("violates"):
             res["source"] = "reference-encoded chunk-signed upload"; return res
